@@ -11,7 +11,10 @@ for m in sorted(glob.glob(os.path.join(V, "seeded", "*", "meta.json"))):
     if "exit" not in r:
         verdict, by = "not run", ""
     else:
-        verdict = "**detected**" if r["detected"] else "not detected"
+        if d.get("expected") == "clean" or d["id"].startswith("M11"):
+            verdict = "clean, as expected (negative control)" if not r["detected"] else "**REPORTED - false alarm**"
+        else:
+            verdict = "**detected**" if r["detected"] else "not detected"
         if r.get("replays_tried"):
             verdict += f" (replays {r['replays_reproduce_on_changed_tree']}/{r['replays_tried']} reproduce, {r['replays_clean_on_unchanged_tree']}/{r['replays_tried']} clean on the unchanged tree)"
         inv = sorted({c.split(":")[0] for c in r.get("violation_classes", [])})
